@@ -441,6 +441,15 @@ func (e *SpecEnv) fieldStep(cur Val, i int) Val {
 			return fa // keep as reference to the embedded aggregate (typed pointer)
 		}
 		v := e.c.loadAt(e.s, e.heap, fa, ft)
+		// machine-range fact of the loaded integer (any stored value of the field's type satisfies it)
+		if sc, ok := v.(Scalar); ok && !strings.Contains(sc.T, "!q") {
+			if ii, ok := isIntType(sc.Ty); ok {
+				e.c.assume(e.s, e.c.ar.rangeAssume(sc.T, ii))
+			}
+		}
+		if sl, ok := v.(SliceV); ok && !strings.Contains(sl.Arr+sl.Len, "!q") {
+			e.c.assume(e.s, e.c.sliceWF(sl))
+		}
 		return v
 	}
 	specFail("field selection on %T", cur)
